@@ -131,7 +131,10 @@ func (wg *WaitGroup) Wait(ctx context.Context) {
 	// need this to wake up any waiters in the case that the
 	// context has been canceled, to avoid having many
 	// theads/waiters blocking.
-	go func() { <-ctx.Done(); wg.cond.Broadcast() }()
+	// hold the mutex while broadcasting: a waiter that has checked
+	// the context but not yet parked holds it, so the wake-up
+	// cannot be lost in between.
+	go func() { <-ctx.Done(); wg.mu.Lock(); defer wg.mu.Unlock(); wg.cond.Broadcast() }()
 
 	for {
 		select {
